@@ -865,6 +865,17 @@ impl endpoint::Session for Session {
                 dispositions.push(disposition);
                 prev_ind = ind;
             }
+            // the last run of consecutive ids ends at the end of the list, not at a chunk boundary
+            if let Some(slice) = delivery_ids.get(prev_ind..).filter(|s| !s.is_empty()) {
+                dispositions.push(Disposition {
+                    role: Role::Sender,
+                    first: slice[0],
+                    last: slice.last().copied(),
+                    settled: true,
+                    state: disposition.state.clone(),
+                    batchable: false,
+                });
+            }
             Ok(Some(dispositions))
         }
     }
